@@ -12,6 +12,7 @@ Proof.
   intros C H. destruct op; cbn [nstep] in H.
   - destruct (sig_col st i); inversion H; subst; [|exact C]. unfold coherent, fill. cbn. apply names_of_coherent. exact C.
   - destruct (sig_col st i); inversion H; subst; [exact I|exact C].
+  - destruct (sig_col st i); inversion H; subst; [|exact C]. unfold coherent, fill. cbn. apply names_of_coherent. exact C.
   - inversion H; subst. exact I.
   - destruct (n_prop st); inversion H; subst; [exact I|exact C].
   - destruct (n_prop st) as [p|]; [inversion H; subst; exact C|]. destruct v; inversion H; subst; [exact I|exact C].
@@ -226,4 +227,13 @@ Proof.
   unfold sig_col. intro H. intro Hi. destruct (Z.ltb_spec i 0); [lia|].
   destruct ((_ <? 0) || _) eqn:E; [discriminate|]. inversion H. apply orb_false_iff in E. destruct E as [E1 E2].
   apply Z.ltb_ge in E1. apply Z.leb_gt in E2. lia.
+Qed.
+
+(* a rejected (non-str) name assignment changes neither the property nor any name *)
+Theorem write_bad_unchanged st i : coherent st ->
+  let st' := snd (nstep st (NWriteBad i)) in
+  (exists e, fst (nstep st (NWriteBad i)) = Raise e) /\ n_prop st' = n_prop st /\ n_cols st' = n_cols st /\
+  forall c, spec_name st' c = spec_name st c.
+Proof.
+  intro C. cbn [nstep]. destruct (sig_col st i); cbn [fst snd]; (split; [eexists; reflexivity|]); repeat split; reflexivity.
 Qed.
